@@ -593,6 +593,54 @@ def ifexp_self(value, default):
     return value
 
 
+def unordered_consumer(items):
+    return set(sorted(items)) == set(items), len(frozenset(list(items))), sorted(set(numpy.sort(numpy.array(items, dtype=int))))
+
+
+def or_default(values, fallback):
+    out = []
+    for v in values:
+        value = v
+        if not value:
+            value = fallback(v)
+        out.append(value)
+    return out
+
+
+def same_branch(items, keep, known):
+    out = []
+    for i, item in enumerate(items):
+        if i in keep:
+            out.append(i)
+        elif known.intersection(item):
+            out.append(i)
+    return out
+
+
+def optional_flag(mask, log):
+    def as_list(x):
+        out = list(x)
+        return out
+    edges = None
+    if 'edges' in mask:
+        edges = as_list(mask['edges'])
+    table = edges
+    if table is not None and mask.get('valid'):
+        log.append(('edges', table))
+    if table is None:
+        log.append('no edges')
+    return log
+
+
+def optional_flag_expression(mask, log):
+    edges = list(mask['edges']) if 'edges' in mask else None
+    if edges is not None and mask.get('valid'):
+        log.append(edges)
+    if edges is None:
+        log.append('none')
+    return log
+
+
 def comprehension_negation(items, known):
     return [i for i in items if not (i not in known or i > 5)]
 
@@ -723,6 +771,18 @@ def inline_multi(values):
         kind, size = _classify(v)
         out.append((kind, size))
     return out
+
+
+def _quiet_mean(values, log):
+    with contextlib.suppress(ZeroDivisionError):
+        log.append('in')
+        return sum(values) / len(values)
+
+
+def inline_with_return(values, log):
+    mean = _quiet_mean(values, log)
+    log.append('after')
+    return mean, log
 
 
 def _lookup(table, key):
@@ -1090,6 +1150,11 @@ CASES = {
     'unzip_loop': [([(1, 2), (3, 4)],), ([],)],
     'dict_zip': [(['a', 'b'], [1, 2]), ([], [])],
     'ifexp_self': [(None, 1), (0, 1), (2, 1)],
+    'unordered_consumer': [([3, 1, 3],), ([],)],
+    'or_default': [([0, 1, None, 2], lambda v: ('d', v)), ([], str)],
+    'same_branch': [([[1], [2], [3]], {0}, {3}), ([], set(), set())],
+    'optional_flag': [({'edges': [1], 'valid': True}, []), ({'edges': [], 'valid': True}, []), ({'valid': True}, []), ({'edges': [2]}, [])],
+    'optional_flag_expression': [({'edges': [1], 'valid': True}, []), ({'edges': []}, []), ({'valid': True}, [])],
     'comprehension_negation': [([1, 2, 7, 9], {1, 7}), ([], set())],
     'expression_walrus': [({'a': 'x', 'b': 'y'}, {'x'}), ({}, {'x'})],
     'generator_helper': [([1, -1, 2],), ([],)],
@@ -1105,6 +1170,7 @@ CASES = {
     'inline_expression_once': [([1, 2, 3],), ([5],), ([],)],
     'inline_predicate': [([1, None, 20, 3], {3}), ([], set())],
     'inline_multi': [([1, -2, None, 0],), ([],)],
+    'inline_with_return': [([1, 2, 3], []), ([], [])],
     'inline_tail': [({'a': 1, 2: 'two'}, 'a'), ({'a': 1, 2: 'two'}, '2'), ({}, 'z')],
     'inline_statement': [(2,), (0,)],
     'inline_names_do_not_clash': [([1, 2],), ([],)],
